@@ -45,7 +45,7 @@ SPEC = {
             "tuple, kerning, presentation), map_glyphs, lookup_glyph_index, horizontal/vertical_advance, glyph_names, "
             "lookup_glyph_image, set_embedded_image_filter, has_embedded_images, table getters, then a probe; the "
             "probe's full result is compared with the probe on a fresh Font in the same configuration and with a "
-            "second probe on the same object. P (5%): subset / instance / WOFF-WOFF2 decode / whole_font run twice "
+            "second probe on the same object. P (5%): subset / instance / WOFF-WOFF2 decode / table_tags / whole_font run twice "
             "in-process (1 in 12 the second run in a child process), outputs compared byte for byte. distinct = "
             "distinct input lines; histogram keys are kind, number of calls (L/G: and whether an error occurred), "
             "for F the probe type, syn/fixture and history length",
